@@ -66,65 +66,9 @@ def rule1_einval(ctx, v):
 
 
 def eval_gt(f, asec, bsec, ansec, bnsec):
-    """abstractly execute myth_timespec_gt on concrete representative values"""
-    vals = {}
+    """abstractly execute myth_timespec_gt on representative values of each ordering case"""
     a, b = 'a0', 'a1'
-    cur = f.blocks[0]
-    prev = None
-    steps = 0
-    while steps < 200:
-        steps += 1
-        for ins in cur.insts:
-            if ins.op == 'phi':
-                for val, pb in ins.d['incoming']:
-                    if prev is not None and pb == prev.id:
-                        vals[ins.id] = getv(vals, val)
-                continue
-            if ins.op == 'load':
-                fld = f.field(ins)
-                root = f.strip(f.ap(ins.ops[0]).root)
-                pick = {(a, TS + 'tv_sec'): asec, (b, TS + 'tv_sec'): bsec, (a, TS + 'tv_nsec'): ansec, (b, TS + 'tv_nsec'): bnsec}
-                if (root, fld) not in pick:
-                    return None
-                vals[ins.id] = pick[(root, fld)]
-            elif ins.op == 'icmp':
-                x, y = getv(vals, ins.ops[0]), getv(vals, ins.ops[1])
-                if x is None or y is None:
-                    return None
-                vals[ins.id] = 1 if eval_icmp(ins.pred, x, y) else 0
-            elif ins.op in ('zext', 'sext', 'trunc', 'bitcast'):
-                vals[ins.id] = getv(vals, ins.ops[0])
-            elif ins.op == 'select':
-                c = getv(vals, ins.ops[0])
-                vals[ins.id] = getv(vals, ins.ops[1] if c else ins.ops[2])
-            elif ins.op in ('and', 'or', 'xor'):
-                x, y = getv(vals, ins.ops[0]), getv(vals, ins.ops[1])
-                if x is None or y is None:
-                    return None
-                vals[ins.id] = {'and': x & y, 'or': x | y, 'xor': x ^ y}[ins.op]
-            elif ins.op == 'getelementptr':
-                continue
-            elif ins.op == 'br':
-                prev = cur
-                if 'cond' in ins.d:
-                    c = getv(vals, ins.d['cond'])
-                    if c is None:
-                        return None
-                    cur = f.blocks[ins.d['t'] if c else ins.d['f']]
-                else:
-                    cur = f.blocks[ins.d['t']]
-                break
-            elif ins.op == 'ret':
-                return getv(vals, ins.ops[0])
-            else:
-                return None  # not a comparison-only function any more
-    return None
-
-
-def getv(vals, r):
-    if isinstance(r, dict):
-        return r.get('c')
-    return vals.get(r)
+    return lib.eval_cmp_fn(f, {(a, TS + 'tv_sec'): asec, (b, TS + 'tv_sec'): bsec, (a, TS + 'tv_nsec'): ansec, (b, TS + 'tv_nsec'): bnsec})
 
 
 def rule2_arith(ctx, v):
